@@ -99,6 +99,19 @@ fn c02_live(ctx: &VariantCtx) -> WorldOutcome {
     })
 }
 
+fn c18_cluster(ctx: &VariantCtx) -> WorldOutcome {
+    cluster_variant(ctx, |p, _| {
+        p.standstill = true;
+        p.byz_permille = 0;
+        p.crash_permille = 0;
+        p.stall_permille = 0;
+        p.partition_permille = 0;
+        p.netfault_permille = 0;
+        p.min_n = 4;
+        p.max_n = 6;
+    })
+}
+
 fn c02_lockstep(ctx: &VariantCtx) -> WorldOutcome {
     cluster_variant(ctx, |p, _| {
         p.liveness = true;
@@ -255,8 +268,9 @@ pub fn variants(property: &str, _tier: Tier) -> Vec<Variant> {
         "C03" | "C04" | "C06" => vec![Variant { name: "pool-votes", weight: 1, max_events: 100_000, run: vw }],
         "C07" | "C08" => vec![Variant { name: "pool-certs", weight: 1, max_events: 100_000, run: kw }],
         "C18" => vec![
-            Variant { name: "pool-votes", weight: 1, max_events: 100_000, run: vw },
-            Variant { name: "pool-certs", weight: 1, max_events: 100_000, run: kw },
+            Variant { name: "pool-votes", weight: 24, max_events: 100_000, run: vw },
+            Variant { name: "pool-certs", weight: 24, max_events: 100_000, run: kw },
+            Variant { name: "cluster-standstill", weight: 1, max_events: 800_000, run: c18_cluster },
         ],
         "C01" => vec![
             Variant { name: "cluster-faulty", weight: 2, max_events: 400_000, run: c01_faulty },
@@ -299,7 +313,7 @@ pub fn plan(property: &str, tier: Tier) -> Option<Plan> {
         "C08" => (if q { 8_000 } else { 400_000 }, if q { 90 } else { 1500 }, "exploration",
             "same generator as C07; after every step finalized_slot, the finalization log (hook H5), the pruning watermark, retained slots and SlotOutOfBounds verdicts are compared with the reference 'FastFinal or (Final and Notar), closed under known parent links'; non-trivial = an implicit finalization occurred or two slots were finalized; distinct = fingerprint over the finalization reports"),
         "C18" => (if q { 6_000 } else { 300_000 }, if q { 90 } else { 1500 }, "exploration",
-            "pool-votes and pool-certs generators with recover_from_standstill() triggered after sampled prefixes of the history (including the empty prefix = fresh pool); the bundle is checked for the finality proof, all later certificates and own votes, validity of every element, and a fresh pool fed only the bundle must reach the same finalized slot and the same ready parents for the following window; non-trivial = recovery was triggered; distinct = history fingerprint"),
+            "three variants; (cluster-standstill, 1 of 49 runs) 4-6 real nodes, a quiet start, then every node on its own (or two sides both short of 60%) for 12-30 s, then the heal: every node whose finalized slot (>= 1) does not advance must re-broadcast a finalization certificate for that slot every DELTA_STANDSTILL (window 9.4-12.5 s after the last progress, repeated), i.e. the real standstill loop fires and Votor forwards the bundle; (pool worlds) pool-votes and pool-certs generators with recover_from_standstill() triggered after sampled prefixes of the history (including the empty prefix = fresh pool); the bundle is checked for the finality proof, all later certificates and own votes, validity of every element, and a fresh pool fed only the bundle must reach the same finalized slot and the same ready parents for the following window; non-trivial = recovery was triggered; distinct = history fingerprint"),
         "C11" => (if q { 20_000 } else { 1_000_000 }, if q { 60 } else { 1200 }, "exploration",
             "one case = one slice (shredder variant, boundary-biased payload length over every residue of the padding scheme incl. 0, max and max+1, with/without parent) shredded by the leader and sent over a lossy, reordering, duplicating datagram network to a receiver that stores shreds by index and calls deshred on every arrival; deshred must succeed iff >=32 distinct shreds arrived, reproduce the slice and all 64 shreds bit-for-bit, each regenerated shred validating under the signed root, and leave the array untouched on error; non-trivial = at least one shred arrived; distinct = (shredder, length, parent, arrivals kept)"),
         "C12" => (if q { 8_000 } else { 300_000 }, if q { 60 } else { 1200 }, "exploration",
@@ -377,6 +391,57 @@ pub fn plan(property: &str, tier: Tier) -> Option<Plan> {
     Some(Plan { runs, budget_s, level, rule, real: CLUSTER_REAL.to_vec(), stubbed: CLUSTER_STUB.to_vec(), assumptions })
 }
 
+/// C18 in the cluster: a live node whose finalized slot (>= 1) does not advance must re-broadcast the
+/// certificates proving that slot every DELTA_STANDSTILL (the real standstill loop polls every
+/// DELTA_BLOCK; Votor forwards the pool's bundle).
+fn standstill_post(cfg: &ClusterCfg, obs: &Observer, timeline: &[(u64, Vec<u64>)]) {
+    let n = cfg.n;
+    let mut checked = 0u64;
+    for i in 0..n {
+        if cfg.roles[i] != cluster::Role::Correct {
+            continue;
+        }
+        // maximal intervals without progress
+        let mut k = 0;
+        while k < timeline.len() {
+            let f = timeline[k].1[i];
+            let t0 = timeline[k].0;
+            let mut e = k;
+            while e + 1 < timeline.len() && timeline[e + 1].1[i] == f {
+                e += 1;
+            }
+            let t1 = timeline[e].0;
+            k = e + 1;
+            if f == 0 {
+                continue;
+            }
+            // expected triggers at t0 + j * (10.0 .. 10.8 s); allow the sampling step and one poll more
+            let mut j = 1u64;
+            while t0 + j * 10_000 + 2_500 <= t1 {
+                let lo = t0 + j * 10_000 - 600;
+                let hi = t0 + j * 10_000 + 2_500 + (j - 1) * 800;
+                let proved = obs.certs.iter().any(|c| {
+                    c.from == i && c.at_ms >= lo && c.at_ms <= hi && c.slot.inner() == f && matches!(c.kind, crate::oracle::CertKind::Final | crate::oracle::CertKind::FastFinal)
+                });
+                checked += 1;
+                if !proved {
+                    kernel::violation(
+                        "C18",
+                        "cluster:no-standstill-rebroadcast",
+                        format!(
+                            "node {i} stayed at finalized slot {f} from {t0} ms to {t1} ms but did not re-broadcast a finalization certificate for it between {lo} and {hi} ms (standstill recovery #{j}); certificates it sent for that slot: {:?}",
+                            obs.certs.iter().filter(|c| c.from == i && c.slot.inner() == f).map(|c| (c.at_ms, format!("{:?}", c.kind))).collect::<Vec<_>>()
+                        ),
+                    );
+                    return;
+                }
+                j += 1;
+            }
+        }
+    }
+    kernel::probe_n("c18_standstill_rebroadcasts_checked", checked);
+}
+
 /// Maps a panic inside the code under test to the property it violates.
 pub fn classify_panic(p: &PanicRecord, checked: &str) -> (String, String) {
     let site = p.location.rsplit('/').next().unwrap_or(&p.location).to_string();
@@ -410,6 +475,10 @@ pub fn cluster_post(
     timeline: &[(u64, Vec<u64>)],
     crashed_at: &[Option<u64>],
 ) {
+    if profile.standstill {
+        standstill_post(cfg, obs, timeline);
+        return;
+    }
     if !profile.liveness {
         return;
     }
